@@ -2,6 +2,7 @@
 from fractions import Fraction
 
 import core
+import protolib
 import rwlib
 from core import run_models, wr_events, Reader
 
@@ -13,7 +14,7 @@ RULE = ("X-chunk: create_binary_event_files on files of n = 0..40 events x event
         "model for each of them (order sensitive event sequences, >= 12 chunks included) and the right number_events. "
         "Every call runs in a killable subprocess under a 120 s deadline (normal duration 0.1-2 s); a missed deadline is "
         "confirmed by an isolated 360 s re-run before it is reported. A case is non-trivial when it has >= 2 chunks; "
-        "distinct by content hash.")
+        "distinct by content hash. " + protolib.RULE + ".")
 TRUSTED = ["multiprocessing.Pool semantics as encoded in Proto.v (apply_async on a closed pool raises, callbacks run on "
            "one result-handler thread, join waits for all submitted jobs) - validated by the real runs of this check",
            "termination of the real runs is observed as a deadline, proved for the model"]
@@ -205,7 +206,11 @@ def run(ctx):
                                 "C04_numeric_sort_restores_order"], "case": d})
             break
     rep.coverage["traces_validated_against_impl"] += len(ljobs)
-    small = [(e, o) for e, o in zip(menc, mouts)][:80]
+    # ---- the real submit loop, jobs and callbacks under schedules chosen here, step-aligned with Proto.pstep -----
+    _, penc, pmo = protolib.run(ctx, 2500 if ctx.thorough else 300, "some")
+    rep.lap("controlled_schedules")
+    menc, mouts = list(menc) + penc[:30], list(mouts) + pmo[:30]
+    small = [(e, o) for e, o in zip(menc, mouts)][:80] + [(e, o) for e, o in zip(penc, pmo)][:30]
     n, badi = core.coq_crosscheck([e for e, _ in small], [o for _, o in small])
     rep.note("vm_compute_crosschecked_cases", n)
     if badi:
